@@ -46,7 +46,7 @@ var profMap = &Profile{
 
 var profDurable = &Profile{
 	Name: "C02-durable", MinOps: 2, MaxOps: 50, NColls: 3, BigKeys: true, BigVals: true,
-	Kinds: []wk{{OpSet, 30}, {OpSetR, 4}, {OpDel, 12}, {OpFlush, 14}, {OpEvict, 4}, {OpReopen, 9}, {OpSetColl, 4}, {OpRmColl, 3}, {OpNames, 1}, {OpRevert, 3}, {OpGet, 3}},
+	Kinds: []wk{{OpSet, 30}, {OpSetR, 4}, {OpDel, 12}, {OpFlush, 14}, {OpEvict, 4}, {OpReopen, 9}, {OpSetColl, 4}, {OpRmColl, 3}, {OpNames, 1}, {OpRevert, 3}, {OpWrite, 2}, {OpGet, 3}},
 }
 
 var profSnap = &Profile{
@@ -69,7 +69,7 @@ var profMonitor = &Profile{
 	Name: "C09-monitor", MinOps: 3, MaxOps: 45, NColls: 2, Snaps: true, BigVals: true, EndOnly: 50,
 	Kinds: []wk{{OpSet, 26}, {OpSetR, 2}, {OpDel, 8}, {OpFlush, 12}, {OpRevert, 6}, {OpReopen, 6}, {OpEvict, 6}, {OpGet, 4}, {OpGetItem, 3}, {OpExist, 1},
 		{OpMin, 2}, {OpMax, 1}, {OpTotals, 1}, {OpLen, 1}, {OpVisit, 8}, {OpBlock, 1}, {OpRandom, 1}, {OpSnap, 4}, {OpSnapClose, 3}, {OpSnapRev, 2},
-		{OpCopyTo, 3}, {OpSetColl, 2}, {OpRmColl, 1}, {OpNames, 1}},
+		{OpCopyTo, 3}, {OpSetColl, 2}, {OpRmColl, 1}, {OpWrite, 3}, {OpSnapBad, 3}, {OpNames, 1}},
 }
 
 var profRecycle = &Profile{
@@ -95,7 +95,7 @@ var profTree = &Profile{
 
 var profFormat = &Profile{
 	Name: "C14-format", MinOps: 2, MaxOps: 40, NColls: 4, BigKeys: true, BigVals: true, Hostile: true, Cmps: true,
-	Kinds: []wk{{OpSet, 36}, {OpSetR, 3}, {OpDel, 10}, {OpFlush, 18}, {OpEvict, 4}, {OpReopen, 6}, {OpSetColl, 6}, {OpRmColl, 3}, {OpRevert, 3}},
+	Kinds: []wk{{OpSet, 36}, {OpSetR, 3}, {OpDel, 10}, {OpFlush, 18}, {OpEvict, 4}, {OpReopen, 6}, {OpSetColl, 6}, {OpRmColl, 3}, {OpCopyTo, 4}, {OpRevert, 3}},
 }
 
 var profRefCount = &Profile{
